@@ -1,0 +1,21 @@
+//go:build verif
+
+package nat
+
+import "github.com/cilium/ebpf"
+
+// VerifSetMaps hands the manager already-created maps (by the names the
+// object declares) instead of loading and attaching the object in Start
+// (verification harness only).
+func (m *Manager) VerifSetMaps(maps map[string]*ebpf.Map) {
+	m.subscriberNAT = maps["subscriber_nat"]
+	m.natSessions = maps["nat_sessions"]
+	m.natReverse = maps["nat_reverse"]
+	m.natPool = maps["nat_pool"]
+	m.natStats = maps["nat_stats_map"]
+	m.natConfigMap = maps["nat_config_map"]
+	m.eimTable = maps["eim_table"]
+	m.hairpinIPs = maps["hairpin_ips"]
+	m.algPorts = maps["alg_ports"]
+	m.natLogRB = maps["nat_log_rb"]
+}
